@@ -115,7 +115,7 @@ package types
 // ---- BigDec: fixed point with 18 decimals; the represented number is bigv[d.i] / 10^18 ------
 // rhe(x): x / 10^18 rounded half-to-even (banker's rounding), sign-symmetric
 //@ pure rheNN(x int) int = ite((x % 1000000000000000000) * 2 < 1000000000000000000, x / 1000000000000000000, ite((x % 1000000000000000000) * 2 > 1000000000000000000, x / 1000000000000000000 + 1, ite((x / 1000000000000000000) % 2 == 0, x / 1000000000000000000, x / 1000000000000000000 + 1)))
-//@ pure rhe(x int) int = ite(x >= 0, rheNN(x), 0 - rheNN(0 - x))
+//@ pure rhe(x int) int opaque = ite(x >= 0, rheNN(x), 0 - rheNN(0 - x))
 //@ pure inDec(v int) bool = 0 - pow2(315) < v && v < pow2(315)
 
 //@ global precisionReuse value != nil && bigv[value] == 1000000000000000000
@@ -126,14 +126,16 @@ package types
 
 //@ func chopPrecisionAndRound
 //@   props C41,C26,C27
+//@   reveal rhe, go_div
 //@   panics_unless d != nil
 //@   requires d != global(precisionReuse) && d != global(fivePrecision) && d != global(oneInt) && d != global(zeroInt)
 //@   modifies bigv
 //@   ensures result == d && bigv[d] == rhe(old(bigv[d]))
-//@   ensures forall p int :: isold(p) && p != d ==> bigv[p] == old(bigv[p])
+//@   ensures forall p int {bigv[p]} :: isold(p) && p != d ==> bigv[p] == old(bigv[p])
 
 //@ func chopPrecisionAndTruncate
 //@   props C41,C26,C27
+//@   reveal go_div
 //@   panics_unless d != nil
 //@   requires d != global(precisionReuse)
 //@   modifies bigv
@@ -144,115 +146,126 @@ package types
 //@   panics_unless d != nil
 //@   modifies bigv
 //@   ensures result != nil && fresh(result) && bigv[result] == rhe(old(bigv[d]))
-//@   ensures forall p int :: isold(p) ==> bigv[p] == old(bigv[p])
+//@   ensures forall p int {bigv[p]} :: isold(p) ==> bigv[p] == old(bigv[p])
 
 //@ func chopPrecisionAndTruncateNonMutative
 //@   props C41,C26,C27
 //@   panics_unless d != nil
 //@   modifies bigv
 //@   ensures result != nil && fresh(result) && bigv[result] == go_div(old(bigv[d]), 1000000000000000000)
-//@   ensures forall p int :: isold(p) ==> bigv[p] == old(bigv[p])
+//@   ensures forall p int {bigv[p]} :: isold(p) ==> bigv[p] == old(bigv[p])
 
 //@ func NewDec
 //@   props C41,C26,C27
 //@   modifies bigv
 //@   ensures result.i != nil && fresh(result.i) && bigv[result.i] == i * 1000000000000000000
-//@   ensures forall p int :: isold(p) ==> bigv[p] == old(bigv[p])
+//@   ensures forall p int {bigv[p]} :: isold(p) ==> bigv[p] == old(bigv[p])
 
 //@ func NewDecFromInt
 //@   props C41,C26,C27
 //@   panics_unless i.i != nil
 //@   modifies bigv
 //@   ensures result.i != nil && fresh(result.i) && bigv[result.i] == old(bigv[i.i]) * 1000000000000000000
-//@   ensures forall p int :: isold(p) ==> bigv[p] == old(bigv[p])
+//@   ensures forall p int {bigv[p]} :: isold(p) ==> bigv[p] == old(bigv[p])
 
 //@ func (BigInt).ToDec
 //@   props C41,C26,C27
 //@   panics_unless i.i != nil
 //@   modifies bigv
 //@   ensures result.i != nil && fresh(result.i) && bigv[result.i] == old(bigv[i.i]) * 1000000000000000000
-//@   ensures forall p int :: isold(p) ==> bigv[p] == old(bigv[p])
+//@   ensures forall p int {bigv[p]} :: isold(p) ==> bigv[p] == old(bigv[p])
 
 //@ func (BigDec).Add
 //@   props C41,C26
 //@   panics_unless d.i != nil && d2.i != nil
 //@   modifies bigv
 //@   ensures result.i != nil && fresh(result.i) && bigv[result.i] == old(bigv[d.i]) + old(bigv[d2.i]) && inDec(bigv[result.i])
-//@   ensures forall p int :: isold(p) ==> bigv[p] == old(bigv[p])
+//@   ensures forall p int {bigv[p]} :: isold(p) ==> bigv[p] == old(bigv[p])
 
 //@ func (BigDec).Sub
 //@   props C41,C26
 //@   panics_unless d.i != nil && d2.i != nil
 //@   modifies bigv
 //@   ensures result.i != nil && fresh(result.i) && bigv[result.i] == old(bigv[d.i]) - old(bigv[d2.i]) && inDec(bigv[result.i])
-//@   ensures forall p int :: isold(p) ==> bigv[p] == old(bigv[p])
+//@   ensures forall p int {bigv[p]} :: isold(p) ==> bigv[p] == old(bigv[p])
 
 //@ func (BigDec).Mul
 //@   props C41,C26,C27
 //@   panics_unless d.i != nil && d2.i != nil
 //@   modifies bigv
 //@   ensures result.i != nil && fresh(result.i) && bigv[result.i] == rhe(old(bigv[d.i]) * old(bigv[d2.i])) && inDec(bigv[result.i])
-//@   ensures forall p int :: isold(p) ==> bigv[p] == old(bigv[p])
+//@   ensures forall p int {bigv[p]} :: isold(p) ==> bigv[p] == old(bigv[p])
 
 //@ func (BigDec).MulTruncate
 //@   props C41,C26
 //@   panics_unless d.i != nil && d2.i != nil
 //@   modifies bigv
 //@   ensures result.i != nil && fresh(result.i) && bigv[result.i] == go_div(old(bigv[d.i]) * old(bigv[d2.i]), 1000000000000000000) && inDec(bigv[result.i])
-//@   ensures forall p int :: isold(p) ==> bigv[p] == old(bigv[p])
+//@   ensures forall p int {bigv[p]} :: isold(p) ==> bigv[p] == old(bigv[p])
 
 //@ func (BigDec).MulInt
 //@   props C41,C26
 //@   panics_unless d.i != nil && i.i != nil
 //@   modifies bigv
 //@   ensures result.i != nil && fresh(result.i) && bigv[result.i] == old(bigv[d.i]) * old(bigv[i.i]) && inDec(bigv[result.i])
-//@   ensures forall p int :: isold(p) ==> bigv[p] == old(bigv[p])
+//@   ensures forall p int {bigv[p]} :: isold(p) ==> bigv[p] == old(bigv[p])
 
 //@ func (BigDec).Quo
 //@   props C41,C26,C27
 //@   panics_unless d.i != nil && d2.i != nil && bigv[d2.i] != 0
 //@   modifies bigv
 //@   ensures result.i != nil && fresh(result.i) && bigv[result.i] == rhe(go_div(old(bigv[d.i]) * 1000000000000000000 * 1000000000000000000, old(bigv[d2.i]))) && inDec(bigv[result.i])
-//@   ensures forall p int :: isold(p) ==> bigv[p] == old(bigv[p])
+//@   ensures forall p int {bigv[p]} :: isold(p) ==> bigv[p] == old(bigv[p])
 
 //@ func (BigDec).QuoTruncate
 //@   props C41,C26
 //@   panics_unless d.i != nil && d2.i != nil && bigv[d2.i] != 0
 //@   modifies bigv
 //@   ensures result.i != nil && fresh(result.i) && bigv[result.i] == go_div(go_div(old(bigv[d.i]) * 1000000000000000000 * 1000000000000000000, old(bigv[d2.i])), 1000000000000000000) && inDec(bigv[result.i])
-//@   ensures forall p int :: isold(p) ==> bigv[p] == old(bigv[p])
+//@   ensures forall p int {bigv[p]} :: isold(p) ==> bigv[p] == old(bigv[p])
 
 //@ func (BigDec).QuoInt64
 //@   props C41,C26
 //@   panics_unless d.i != nil && i != 0
 //@   modifies bigv
 //@   ensures result.i != nil && fresh(result.i) && bigv[result.i] == go_div(old(bigv[d.i]), i)
-//@   ensures forall p int :: isold(p) ==> bigv[p] == old(bigv[p])
+//@   ensures forall p int {bigv[p]} :: isold(p) ==> bigv[p] == old(bigv[p])
 
 //@ func (BigDec).TruncateInt
 //@   props C41,C26,C27
 //@   panics_unless d.i != nil
 //@   modifies bigv
 //@   ensures result.i != nil && fresh(result.i) && bigv[result.i] == go_div(old(bigv[d.i]), 1000000000000000000) && inBig(bigv[result.i])
-//@   ensures forall p int :: isold(p) ==> bigv[p] == old(bigv[p])
+//@   ensures forall p int {bigv[p]} :: isold(p) ==> bigv[p] == old(bigv[p])
 
 //@ func (BigDec).RoundInt
 //@   props C41,C26
 //@   panics_unless d.i != nil
 //@   modifies bigv
 //@   ensures result.i != nil && fresh(result.i) && bigv[result.i] == rhe(old(bigv[d.i])) && inBig(bigv[result.i])
-//@   ensures forall p int :: isold(p) ==> bigv[p] == old(bigv[p])
+//@   ensures forall p int {bigv[p]} :: isold(p) ==> bigv[p] == old(bigv[p])
 
 //@ func MinInt
 //@   props C41,C27
 //@   panics_unless i1.i != nil && i2.i != nil
 //@   modifies bigv
 //@   ensures result.i != nil && fresh(result.i) && bigv[result.i] == min(old(bigv[i1.i]), old(bigv[i2.i]))
-//@   ensures forall p int :: isold(p) ==> bigv[p] == old(bigv[p])
+//@   ensures forall p int {bigv[p]} :: isold(p) ==> bigv[p] == old(bigv[p])
 
 //@ func MaxInt
 //@   props C41,C27
 //@   panics_unless i.i != nil && i2.i != nil
 //@   modifies bigv
 //@   ensures result.i != nil && fresh(result.i) && bigv[result.i] == max(old(bigv[i.i]), old(bigv[i2.i]))
-//@   ensures forall p int :: isold(p) ==> bigv[p] == old(bigv[p])
+//@   ensures forall p int {bigv[p]} :: isold(p) ==> bigv[p] == old(bigv[p])
+
+// FracPow is the Newton-iteration based fractional power: its numeric behaviour is NOT verified
+// (no SMT-dischargeable variant for ApproxRoot's loop); it is specified as an uninterpreted
+// function of its inputs so that callers' results are pinned to the arguments they pass.
+//@ pure fracPow(a int, p int, c int) int
+//@ func (BigDec).FracPow
+//@   trusted numeric kernel (ApproxRoot/Power); termination and monotonicity are assumed, not proved
+//@   panics_unless d.i != nil && power.i != nil
+//@   modifies bigv
+//@   ensures result.i != nil && fresh(result.i) && bigv[result.i] == fracPow(old(bigv[d.i]), old(bigv[power.i]), denominator)
+//@   ensures forall p int {bigv[p]} :: isold(p) ==> bigv[p] == old(bigv[p])
